@@ -51,6 +51,37 @@ CHECKS = {
          "Every sequence of up to 2 operations (3 over a core alphabet in thorough) from 16 operations (create/update/delete over 2 rooms x 2 entities x 2 days, a closed mutation stream, a room mutation, ingestion by a real pull), every ordered pair of local operations forced into one writer transaction by parking the writer at its gate, and pulls interrupted after 1..14 protocol answers run on a real instance with two subscribers; once quiescent every (room, entity, day) cell whose stored signatures changed must have been named by a data-changed event on both subscribers, every accepted room mutation must have produced a room-modified event, and no recompute mark may remain.",
          "Quiescence = two FIFO round trips through database actor, writer and event service. Subscribers are drained after every workload (the broadcast channel holds 16 events; overflow of an undrained subscriber is not explored).",
          "DESIGN.md section 5 C18"),
+
+ "C05": ("model_checking",
+         "bounded-exhaustive enumeration of (model, data set, query) per clause family against an independent reference evaluator, plus exhaustive paging walks",
+         "Over 4 data models (scalars with nullable fields and defaults, single/array/self references over two namespaces and two levels, Json, Base64) and ALL data sets over {absent, null, v1, v2} per clause family, queries are generated clause family by clause family from the real grammar (selection, one and two filters, one and two order keys, first/skip, after/before with every cursor of the domain, first/after walks with page sizes 1 and 2, before/after splits around every row, aggregates with having, nested entities with nullable(), json selectors) and run through the real parser, PreparedQueries and Query::read; the JSON is compared structurally with a reference evaluator written by the harness that is permissive exactly where the documentation leaves the meaning open (order among ties, placement of nulls if consistent between unpaged result and pages, both readings of null comparisons).",
+         "Trusts the reference evaluator (own AST and evaluation over a harness-side copy of the inserted data). Light world (in-memory connection, real phase functions); 509 cases per quick run also go through a real service. Row bounds per family are small (ties and nulls forced).",
+         "DESIGN.md section 5 C05"),
+ "C06": ("model_checking",
+         "layout model of the four signed digests bound to the real sign/verify on every enumerated row; exhaustive alias search over the bounded domain replayed on the real verify; exhaustive enumeration of signing requests on a real instance",
+         "Part A: for every row of a bounded domain of the four signed kinds (variable fields = all strings up to length 2 (3-4 thorough) over {a \" { }}, optional fields present/absent, two values per fixed field) the model digest is signed and the real verify() must accept it iff the model says so, the real sign() must give the same signature; then every row of any kind, optional-field pattern and field split whose signed bytes equal this row's is constructed and replayed on the real verify() (sign r, copy the signature to r' != r), and real signatures are bucketed. Part B: ProveIdentity(challenge) is sent unauthenticated through the real process_inbound with challenge = digest of five forged row kinds naming the victim, lengths 0/1/31/33/64, announce-header and invitation hashes; each returned signature is attached to the forged row, verified with the real verify() and ingested by an honest member through the real entry points.",
+         "blake3 collision resistance and ed25519 unforgeability/determinism are trusted. The alias search is complete for every signed row of the domain (the bound applies to the signed row, not to the alias). QUIC transport not run.",
+         "DESIGN.md section 5 C06"),
+ "C14": ("model_checking",
+         "bounded-exhaustive input-shape enumeration on the real parsers, executors and a live instance, with a process-wide panic hook and a liveness probe after every adversarial input",
+         "Every token string up to length 4 (5 thorough) over 11-25 token alphabets in 16 frames of the four grammars goes to the real parsers and, when accepted, through execute/validate/batch write/query read; every parameter value kind x field kind x position (5458 requests); 187 identifier classes (all 147 SQLite keywords, digit-first, underscore-first, non-ASCII, lengths 1 and 64) x 13 roles; 1.47 M wire decodes of 22 protocol types (all byte strings of length <= 2, every truncation, byte change and length inflation of valid encodings) in a child process; 846 rows with odd key length, signature length, dates and content through verify, the verification service and the ingestion entry points; 284 protocol queries through the real process_inbound; 688 invitation byte strings. On a real instance a probe (mutation, query that must see it, signature verification, reader-pool head count) follows each of 7286 inputs. Oracle: result or error, no panic on any thread, probe answered, no engine error for an accepted request.",
+         "Keys contain the source line of a panic. QUIC framing is exercised at the decode layer only; accept_invite through its three input-dependent steps, not through a PeerManager.",
+         "DESIGN.md section 5 C14"),
+ "C16": ("model_checking",
+         "exhaustive schedule enumeration (all linear extensions of read / validate / batch-commit x all batch partitions) on the real phase functions, serial-outcome oracle, every schedule class forced on the real service with reader/writer gates",
+         "For every ordered pair (quick) and every sequence of 2-3 mutations (thorough) of 7 kinds on one row (two fields, same field twice, add / replace reference, room move) every interleaving the pipeline allows of snapshot read, sign/validate and batch commit, for every grouping into write batches, is executed on MutationQuery::execute, validate_mutation and process_batch_write; the final row, references and signatures must equal the serial result of some order of the acknowledged mutations. Every class (batches, commits before each read, read order) is then forced on a real GraphDatabaseService with two reader threads through both entry points and must end identically; findings are reported only for classes confirmed there.",
+         "Reads are atomic steps; at most one reader is parked at a time (classes needing two are required to equal a forced twin); the differential oracle shares the serial code path. Bounds: n=2 (quick), n<=3 with repetition (thorough).",
+         "DESIGN.md section 5 C16"),
+ "C17": ("model_checking",
+         "explicit-state breadth-first search over local write / ingestion histories on the real pipeline with a differential search oracle in every state, plus exhaustive bounded two-peer histories with real pulls",
+         "Light world: BFS (depth 4 quick, 5-6 thorough, <= 3 live rows, globally deduplicated on a canonical state that keeps row ids and the logical index content) over create / set / clear / delete-with-slot-reuse / model-version toggle / deliver-new / deliver-version built as the puller builds them; after every transition search(t) for aaa, bbb, ccc and a never-stored probe through the real query engine must equal the rows whose current strings contain t, and no legitimate write may be refused by the engine. Full world: every history of depth 4 (5) over create/update/delete/pull on two real peers sharing a room, same oracle on both peers after every step, plus restart-with-other-model histories.",
+         "Search texts are single 3-letter tokens; one indexed entity; equal canonical states must give equal verdicts (guard, never violated).",
+         "DESIGN.md section 5 C17"),
+ "C19": ("model_checking",
+         "bounded-exhaustive input-shape enumeration on the real initialise_connection (paused clock), exhaustive schedule enumeration of connection open / handshake / consumption on the real PeerManager, all ordered pairs of 64 key materials",
+         "Part A: token type(8) x presented identity(4) x proof mode(5, incl. an answer recorded on a previous real connection) x peer-row shape(15) x transport behaviour(8, incl. no answer and a late answer under paused time) on the real initialise_connection behind a real QueryService, oracle computed from the case parameters only (accepted, key bound, connected/invite-accepted emitted iff possession of the expected key was proved on this connection's challenge). Part B: every interleaving of open/handshake/consume of 2 (3) connections on one invitation, inviter and invitee side, same and different remote keys, on a real PeerManager over real databases and a socket-free endpoint; every single-bit (single-byte) corruption and truncation of the 108 invitation bytes; foreign application. Part C: token(a,b)=token(b,a), stability and distinctness for all ordered pairs of 64 key materials.",
+         "Ed25519 unforgeability; paused clock is faithful for the 10 s timeout (no OS thread in part A); the harness plays the PeerConnectionService loop one message at a time. QUIC/TLS, multicast and beacon paths are not run.",
+         "DESIGN.md section 5 C19"),
 }
 
 NOT_YET = {
